@@ -57,6 +57,23 @@ func (sb *schemaBuilder) buildBatchFunctionWithFallback(typ reflect.Type, m *met
 
 	batchField.UseBatchFunc = m.BatchArgs.ShouldUseBatchFunc
 	batchField.Resolve = fallbackField.Resolve
+	if batchFuncCtx.hasArgs {
+		// The arguments are parsed into the batch function's args struct. A fallback
+		// function that declares its own, identical struct type is handed a value of
+		// that type.
+		argsIdx := 1
+		if fallbackFuncCtx.hasContext {
+			argsIdx = 2
+		}
+		fallbackArgsType := fallbackFuncCtx.funcType.In(argsIdx)
+		fallbackResolve := fallbackField.Resolve
+		batchField.Resolve = func(ctx context.Context, source, args interface{}, selectionSet *graphql.SelectionSet) (interface{}, error) {
+			if v := reflect.ValueOf(args); v.IsValid() && v.Type() != fallbackArgsType && v.Type().ConvertibleTo(fallbackArgsType) {
+				args = v.Convert(fallbackArgsType).Interface()
+			}
+			return fallbackResolve(ctx, source, args, selectionSet)
+		}
+	}
 	return batchField, nil
 }
 
